@@ -95,7 +95,9 @@ structure Cfg where
   exeGuessOn : List Exc
   /-- `exe()`: the errors of `guess_it(fallback=exe)` (native answer `''`) whose clause is `pass` -/
   exeGuessSwallows : List Exc
-  /-- `guess_it`: the fallbacks that are raised (`isinstance(fallback, …)`) instead of returned -/
+  /-- `guess_it`: the fallbacks that are raised (`isinstance(fallback, …)`) instead of returned. NOT read by
+      the model's `guessIt` (which raises every error fallback, see there): the field exists so that `cfg_good`
+      pins the fact — an obligation, not semantics. -/
   guessReraises : List Exc
 
 /-! ## text-mode reading -/
